@@ -396,9 +396,11 @@ func inboxDuplicates(state string, eui protocol.EUI) []string {
 }
 
 type downSeen struct {
-	fcnt int
-	ack  bool
-	raw  string
+	fcnt  int
+	ack   bool
+	raw   string
+	port  string
+	plain string
 }
 
 // decodeDowns decodes emitted data downlinks with the Lean device of d.
@@ -427,7 +429,11 @@ func (h *ctlRun) decodeDowns(d *simDev, emitted string) ([]downSeen, error) {
 		if specField(sp, "addr") != fmt.Sprint(d.addr) {
 			continue
 		}
-		res = append(res, downSeen{atoi(specField(sp, "fcnt")), specField(sp, "ack") == "1", f[1]})
+		pl := hx.KV(a)["plain"]
+		if pl == "-" {
+			pl = ""
+		}
+		res = append(res, downSeen{atoi(specField(sp, "fcnt")), specField(sp, "ack") == "1", f[1], specField(sp, "port"), pl})
 	}
 	return res, nil
 }
@@ -446,7 +452,7 @@ func runPipeCtl(c *ctx) error {
 		}
 		return false
 	}
-	if want("C10", "C17") {
+	if want("C10", "C17", "C06", "C07", "C09") {
 		if err := ctlFaults(c, file); err != nil {
 			return err
 		}
